@@ -113,10 +113,13 @@ func (c *VirtualTable) BestIndex(input *sqlite.IndexInfoInput) (*sqlite.IndexInf
 		return nil, toSqlite(err)
 	}
 	used := make([]*sqlite.ConstraintUsage, len(indexIn))
+	argvIndex := 0
 	for i := range indexOut.Used {
 		if indexOut.Used[i] {
+			// argv positions must be contiguous, whatever was skipped before
+			argvIndex++
 			used[i] = &sqlite.ConstraintUsage{
-				ArgvIndex: i + 1,
+				ArgvIndex: argvIndex,
 				//Omit: true, // no known cases where this doesn't work, but...
 			}
 		}
